@@ -45,6 +45,8 @@ def run_case(cs, real, layouts=(None, None)):
             return nframe(fn(P.build_frame(real['a'], layouts[0]), P.build_frame(real['b'], layouts[1])))
         if op == 'fs_binop':
             return nframe(fn(P.build_frame(real['a'], layouts[0]), P.build_series(real['b'])))
+        if op == 'fsT_binop':
+            return nframe(fn(P.build_frame(real['a'], layouts[0]).via_T, P.build_series(real['b'])))
         if op == 'f_scalar':
             f = P.build_frame(real['a'], layouts[0])
             v = P.dec(real['v'])
@@ -154,6 +156,11 @@ def gen_case(rng):
         fb = frame(rb, cb)
         return ({'op': 'f_binop', 'fn': fnname, 'a': abs_nframe(fa), 'b': abs_nframe(fb)}, {'a': fa, 'b': fb},
                 (C.rand_layout(rng, fa), C.rand_layout(rng, fb)))
+    if r < 0.87 and pk != 'tuple':
+        # axis 1: the Series meets the index; square results (as many rows after alignment as columns) included
+        col = _numcol(rng, len(rb), kind)
+        s = {'index': rb, 'vals': col['vals'], 'dt': col['dt'], 'name': ['none']}
+        return {'op': 'fsT_binop', 'fn': fnname, 'a': abs_nframe(fa), 'b': abs_nser(s)}, {'a': fa, 'b': s}, (C.rand_layout(rng, fa), None)
     if r < 0.92:
         col = _numcol(rng, len(cb), kind)
         s = {'index': cb, 'vals': col['vals'], 'dt': col['dt'], 'name': ['none']}
